@@ -75,7 +75,7 @@ func serialise(name string, o Opts, sql string) (string, error) {
 		if err != nil {
 			return "", err
 		}
-		ind := strings.Repeat(" ", o.Indent)
+		ind := strings.Repeat(" ", max(o.Indent, 0))
 		if o.Tabs {
 			ind = "\t"
 		}
@@ -155,6 +155,7 @@ func features(ser string) sqlgen.Features {
 	f.MySQL = hx.Allowed("c06.mysql_forms")
 	f.Partitions = hx.Allowed("c06.partitions")
 	f.QuotedOddNames = true
+	f.Corners = true
 	f.QuotedDotName = hx.Allowed("c06.quoted_dot_name")
 	f.QuotedDigitsName = hx.Allowed("c06.quoted_digits_name")
 	if ser == "cli" && !hx.Allowed("c06.cli.unimplemented_clauses") {
@@ -169,7 +170,7 @@ func features(ser string) sqlgen.Features {
 
 func genOpts(rt *rapid.T) Opts {
 	return Opts{
-		Indent:    rapid.SampledFrom([]int{2, 0, 4}).Draw(rt, "indent"),
+		Indent:    rapid.SampledFrom([]int{2, 0, 4, -2}).Draw(rt, "indent"),
 		Tabs:      rapid.Bool().Draw(rt, "tabs"),
 		Upper:     rapid.Bool().Draw(rt, "upper"),
 		Lower:     rapid.Bool().Draw(rt, "lower"),
